@@ -161,6 +161,18 @@ class Skel:
         raise Unsupported(f"statement {type(s).__name__}")
 
 
+def budget_expr(e, line_count_src):
+    """the initial value of the retry counter as a Lean expression over L = len(input.splitlines()) (natural numbers)"""
+    if isinstance(e, ast.Constant) and isinstance(e.value, int) and not isinstance(e.value, bool) and e.value >= 0:
+        return str(e.value)
+    if isinstance(e, ast.Call) and ast.unparse(e) == line_count_src:
+        return "L"
+    if isinstance(e, ast.BinOp) and isinstance(e.op, (ast.Add, ast.Mult, ast.Sub, ast.FloorDiv)):
+        op = {ast.Add: "+", ast.Mult: "*", ast.Sub: "-", ast.FloorDiv: "/"}[type(e.op)]
+        return f"({budget_expr(e.left, line_count_src)} {op} {budget_expr(e.right, line_count_src)})"
+    raise Unsupported(f"retry budget expression {ast.unparse(e)!r} (expected arithmetic over {line_count_src})")
+
+
 def generate(repo):
     """returns (lean text, fingerprints, errors)"""
     errors, fps = [], {}
@@ -172,6 +184,8 @@ def generate(repo):
         f"def parserCall : String := {lstr(PARSER_CALL)}",
     ]
     fn_txt = '{ ctr := "", pre := .skip, body := .skip, post := .skip }'
+    budget = "0"
+    budget_src = "<not found>"
     outer_pre, outer = ".skip", ".skip"
     try:
         tree = ast.parse((repo / SRC).read_text())
@@ -195,6 +209,11 @@ def generate(repo):
         if isinstance(first, ast.If) and isinstance(first.test, ast.Compare) and isinstance(first.test.left, ast.Name):
             ctr = first.test.left.id
         pre = sk.block(tp.body[: loops[0]])
+        inits = [st for st in tp.body[: loops[0]] if isinstance(st, ast.Assign) and any(isinstance(t, ast.Name) and t.id == ctr for t in st.targets)]
+        if len(inits) != 1:
+            raise Unsupported(f"the retry counter {ctr!r} is not initialised by exactly one assignment before the loop")
+        budget_src = ast.unparse(inits[0].value)
+        budget = budget_expr(inits[0].value, "len(input.splitlines())")
         body = sk.block(w.body)
         post = sk.block(tp.body[loops[0] + 1 :])
         fn_txt = "{ ctr := " + lstr(ctr) + ",\n    pre := " + pre + ",\n    body := " + body + ",\n    post := " + post + " }"
@@ -207,6 +226,8 @@ def generate(repo):
     out += [
         "/-- `_try_parse` (inner function of Execer._parse_ctx_free): prologue, loop body, epilogue -/",
         "def tryParseSkel : Fn :=\n  " + fn_txt,
+        f"/-- the INITIAL VALUE of the retry counter, `{budget_src}`, as a function of L = len(input.splitlines()) -/",
+        "def budget (L : Nat) : Nat := " + budget,
         "/-- `_parse_ctx_free`'s own statements before its final try/except -/",
         "def outerPre : Stmt :=\n  " + outer_pre,
         "/-- `_parse_ctx_free`'s final statement -/",
@@ -219,6 +240,9 @@ def generate(repo):
         'theorem outer_ok : (outerSkel == outerExpected && noRec outerPre && maxCalls "_try_parse" outerPre == 0) = true := by decide',
         "/-- REGENERATED OBLIGATION: one parser call and at most one recursive call per round -/",
         "theorem per_round : maxCalls parserCall (bodyRest tryParseSkel) = 1 ∧ maxRec (bodyRest tryParseSkel) = 1 := by decide",
+        "/-- REGENERATED OBLIGATION: the budget covers the work a well-formed input needs — every bare segment that is not valid Python",
+        "costs one round and the accepting parse one more, so L lines of at most two such segments each need 2·L + 1 rounds -/",
+        "theorem budget_ok : ∀ L : Nat, 2 * L + 1 ≤ budget L := by intro L; unfold budget; omega",
         "end Gen.TryParse",
         "",
     ]
